@@ -45,12 +45,13 @@ CONFIG = {
     'deciding': ['c06.meta', 'c06.hashseed'],
     'shards': {'quick': 16, 'thorough': 16},
     'hashseeds': {'quick': 4, 'thorough': 16},
-    'min_evals': {'quick': {'c06.meta': 40000, 'c06.hashseed': 900},
+    'min_evals': {'quick': {'c06.meta': 200000, 'c06.hashseed': 900},
                   'thorough': {'c06.meta': 60000, 'c06.hashseed': 4000}},
     'must_sig': ['tau:bijection', 'tau:containers', 'tau:atoms',
                  'tau:unreachable', 'tau:shuffle', 'tau:retype',
                  'tau:distinct_objects', 'tau:atoms_long', 'tau:atoms_related',
-                 'logic:CTL', 'logic:LTL', 'logic:CTLS', 'bulk:CTL'],
+                 'logic:CTL', 'logic:LTL', 'logic:CTLS', 'bulk:CTL',
+                 'block:long_names'],
     'rule': ('cases = (structure, formula, logic) from a seeded list; each '
              'evaluated under every hash seed of the run (fresh interpreter '
              'per seed) and under 6 transformations in-process. non-trivial '
@@ -410,7 +411,7 @@ def bulk_ctl(ctx):
     global BULK_FORMS
     if BULK_FORMS is None:
         BULK_FORMS = bulk_forms()
-    n = 6400 if ctx.quick else 160000
+    n = 16000 if ctx.quick else 240000
     for k in range(n):
         if not ctx.mine(k):
             continue
@@ -440,10 +441,58 @@ def bulk_ctl(ctx):
         if isinstance(base, list) and 0 < len(base) < nk.n:
             LOG.mark_nontrivial(('bulk', k))
         meta(r, 1000000 + k, 'CTL', nk, t, base)
+        # more renamings / orders for the same case (cheap for CTL): visiting
+        # orders of SCC search and reachability change with each of them
+        meta(r, 1000000 + k, 'CTL', nk, t, base)
+        meta(r, 1000000 + k, 'CTL', nk, t, base)
+
+
+def long_name_block(ctx):
+    """Every similar-subformula formula on a few structures: short atom
+    names versus very long names sharing a stem (printed forms of different
+    subformulas then agree on a long prefix)."""
+    stem = '_and_a_very_long_suffix_to_make_printed_forms_exceed_any_' \
+        'reasonable_width'
+    forms = similar_pairs()
+    shapes = [([0b011, 0b110, 0b101], [{'p', 'q'}, {'p'}, {'p', 'r'}]),
+              ([0b10, 0b11], [{'p', 'q'}, {'p', 'r'}]),
+              ([0b0110, 0b1001, 0b0100, 0b0001],
+               [{'p', 'r'}, {'p', 'q'}, {'p'}, {'q'}]),
+              ([0b010, 0b100, 0b011], [{'p', 'q', 'r'}, {'p', 'q'}, {'p'}])]
+    k = 0
+    for succ, labs in shapes:
+        for t in forms:
+            if ctx.mine(k):
+                nk = NK(range(len(succ)), succ, labs)
+                base, _ = run_base('CTLS', nk, t)
+                ren = {a: 'atom%s_%d' % (stem, i)
+                       for i, a in enumerate(('p', 'q', 'r'))}
+                nk2 = NK(nk.states, nk.succ,
+                         [frozenset(ren[a] for a in l) for l in nk.labels])
+                LOG.hit('c06.meta')
+                LOG.sig['block:long_names'] += 1
+                try:
+                    K = build_K(nk2)
+                    res = mc('CTLS', K, build(lang('CTLS'),
+                                              rename_atoms(t, ren)))
+                    out = canon(res, nk2)
+                except Exception as e:
+                    out = 'raise:' + type(e).__name__
+                if out != base:
+                    LOG.violation('c06.meta', PROP,
+                                  {'case_index': 2000000 + k,
+                                   'logic': 'CTLS', 'K': nk.to_json(),
+                                   'formula': t,
+                                   'transformation': 'long atom names'},
+                                  out, base,
+                                  note='answer changed when atoms were '
+                                       'renamed to long names sharing a stem')
+            k += 1
 
 
 def run(ctx):
     attach()
+    long_name_block(ctx)
     bulk_ctl(ctx)
     ncases = 320 if ctx.quick else 4800
     nseeds = CONFIG['hashseeds'][ctx.tier]
@@ -520,6 +569,14 @@ def replay(ctx, rep):
     attach()
     c = rep['case']
     idx = c['case_index']
+    if idx >= 2000000:
+        class _C(object):
+            pass
+        cc = _C()
+        want = idx - 2000000
+        cc.mine = lambda i: i == want
+        long_name_block(cc)
+        return
     if idx >= 1000000:
         # bulk CTL case: re-run the structure/formula recorded in the case
         from ..mcwork import to_tuple, nk_from_json
